@@ -541,6 +541,19 @@ loop:
 		m.Notes = append(m.Notes, res.Notes...)
 		for _, v := range res.Violations {
 			v.Decode()
+			// violations covered by a known finding are counted and dropped BEFORE same-signature violations are merged
+			// (an input-identified finding must not absorb other inputs with the same signature)
+			covered := false
+			for i, k := range knowns {
+				if _, live := knownHits[i]; live && k.Match(v.Sig, v.Entry, v.Input) {
+					knownHits[i] += v.Count
+					covered = true
+					break
+				}
+			}
+			if covered {
+				continue
+			}
 			key := v.Sig
 			if i, ok := violBySig[key]; ok && !strings.Contains(v.Sig, "\x00") {
 				m.Violations[i].Count += v.Count
